@@ -337,7 +337,11 @@ theorem readQueue_succ (inj : BSt → Nat → BSt) (tsNow : Option Nat) (i fuel 
 
 theorem readQueue_closed (hc : ClosedQ P) (inj : BSt → Nat → BSt) (hinj : ∀ s site, P s → P (inj s site))
     (tsNow : Option Nat) (i : Nat) : ∀ (fuel total : Nat) (s : BSt), P s → P (readQueue inj tsNow i fuel total s)
-  | 0, _, s, h => by unfold readQueue; exact h
+  | 0, total, s, h => by
+    unfold readQueue
+    split
+    · exact hc.commitRead s i h
+    · exact h
   | fuel + 1, total, s, h => by
     rw [readQueue_succ]
     dsimp only
